@@ -457,4 +457,88 @@ theorem hashV_all (a : Val) : HashV a := by
     | _ => simp [Elems.eq]
   | _ => exact hashV_of _ (by intro es h; cases h)
 
+/-! ### sorting keys of the fragment `F` (what `drop_or_take` relies on) -/
+
+/-- `i` goes before `j`: strictly smaller, or `Equal` and earlier in the input (stability). -/
+def Before (vs : List Val) (i j : Nat) : Prop :=
+  Val.cmp (vs.getD i .extant) (vs.getD j .extant) = .lt ∨
+    (Val.cmp (vs.getD i .extant) (vs.getD j .extant) = .eq ∧ i < j)
+
+theorem goodV_getD (vs : List Val) (h : ∀ v ∈ vs, goodV v) (i : Nat) : goodV (vs.getD i .extant) := by
+  rw [List.getD_eq_getElem?_getD]
+  cases hi : vs[i]? with
+  | none => exact ⟨rfl, rfl⟩
+  | some v => exact h v (List.mem_of_getElem? hi)
+
+theorem mem_insertSorted (vs : List Val) (x y : Nat) (l : List Nat) :
+    y ∈ insertSorted vs x l ↔ y = x ∨ y ∈ l := by
+  induction l with
+  | nil => simp [insertSorted]
+  | cons z zs ih =>
+    simp only [insertSorted]
+    split
+    · simp
+    · simp [ih]; grind
+
+theorem perm_insertSorted (vs : List Val) (x : Nat) (l : List Nat) : (insertSorted vs x l).Perm (x :: l) := by
+  induction l with
+  | nil => simp [insertSorted]
+  | cons z zs ih =>
+    simp only [insertSorted]
+    split
+    · exact List.Perm.refl _
+    · exact (List.Perm.cons z ih).trans (List.Perm.swap x z zs)
+
+theorem pairwise_insertSorted (vs : List Val) (h : ∀ v ∈ vs, goodV v) (x : Nat) (l : List Nat)
+    (hl : ∀ y ∈ l, x < y) (hs : l.Pairwise (Before vs)) : (insertSorted vs x l).Pairwise (Before vs) := by
+  induction l with
+  | nil => simp [insertSorted]
+  | cons y ys ih =>
+    have hy := List.pairwise_cons.1 hs
+    simp only [insertSorted]
+    split
+    · rename_i hc
+      refine List.pairwise_cons.2 ⟨?_, hs⟩
+      intro z hz
+      have hxz : x < z := hl z hz
+      have hxy : Val.cmp (vs.getD x .extant) (vs.getD y .extant) ≠ .gt := by simpa using hc
+      rcases List.mem_cons.1 hz with rfl | hz'
+      · unfold Before
+        revert hxy
+        cases Val.cmp (vs.getD x .extant) (vs.getD z .extant) <;> simp [hxz]
+      · have hyz := hy.1 z hz'
+        have ht := transV_all _ (goodV_getD vs h x) _ _ (goodV_getD vs h y) (goodV_getD vs h z)
+        unfold Before at hyz ⊢
+        revert hxy hyz ht
+        cases Val.cmp (vs.getD x .extant) (vs.getD y .extant) <;>
+          cases Val.cmp (vs.getD y .extant) (vs.getD z .extant) <;>
+          cases Val.cmp (vs.getD x .extant) (vs.getD z .extant) <;> simp [lawTrans, hxz]
+    · rename_i hc
+      have hgt : Val.cmp (vs.getD x .extant) (vs.getD y .extant) = .gt := by simpa using hc
+      refine List.pairwise_cons.2 ⟨?_, ih (fun z hz => hl z (List.mem_cons_of_mem _ hz)) hy.2⟩
+      intro z hz
+      rcases (mem_insertSorted vs x z ys).1 hz with rfl | hz'
+      · left
+        rw [swapV_all _ (goodV_getD vs h z) _ (goodV_getD vs h y), hgt]; rfl
+      · exact hy.1 z hz'
+
+theorem sort_fold (vs : List Val) (h : ∀ v ∈ vs, goodV v) (is : List Nat) (hinc : is.Pairwise (· < ·)) :
+    (is.foldr (fun i acc => insertSorted vs i acc) []).Perm is ∧
+      (is.foldr (fun i acc => insertSorted vs i acc) []).Pairwise (Before vs) := by
+  induction is with
+  | nil => simp
+  | cons i is ih =>
+    have hi := List.pairwise_cons.1 hinc
+    have ih' := ih hi.2
+    simp only [List.foldr_cons]
+    constructor
+    · exact (perm_insertSorted vs i _).trans (List.Perm.cons i ih'.1)
+    · exact pairwise_insertSorted vs h i _ (fun y hy => hi.1 y (ih'.1.mem_iff.1 hy)) ih'.2
+
+theorem before_asymm (vs : List Val) (h : ∀ v ∈ vs, goodV v) (i j : Nat) :
+    Before vs i j → Before vs j i → False := by
+  unfold Before
+  rw [swapV_all _ (goodV_getD vs h i) _ (goodV_getD vs h j)]
+  cases Val.cmp (vs.getD i .extant) (vs.getD j .extant) <;> simp [Ordering.swap] <;> omega
+
 end SwimVerif.ValueOrd
